@@ -89,11 +89,14 @@ SHAPES = [
     ("script", "{F}(" + PSCRIPT + ")"),
     ("enc", "{F}(" + P2 + ", 'utf-8', TRUE)"),
     ("rec", "{F}(" + PD + ", TRUE, TRUE, TRUE)"),
+    ("pcb", "{F}(" + P1 + ", fn(x) x)"),
+    ("cbp", "{F}(fn(x) x, " + P1 + ")"),
+    ("pcbp", "{F}(" + P1 + ", fn(a, b) a, " + P2 + ")"),
 ]
 OS_NATIVES = ["execute", "file_input", "file_copy", "file_delete",
               "file_exists", "file_info", "file_move", "file_output",
               "list_dir", "make_dir", "run", "read_file"]
-ALIAS_MODES = ["none", "fresh", "existing", "run", "predef"]
+ALIAS_MODES = ["none", "fresh", "existing", "run", "predef", "insecure-name"]
 FLAG = "checkerlang_secure_mode"
 
 _DISC = {}
@@ -252,6 +255,14 @@ def invoke_ops(F, inst="S"):
 
 def native_ops(name, mode, base_names):
     ops = []
+    if mode == "insecure-name":
+        # a harmless native is first bound under the name of this native,
+        # then the native itself is bound and used
+        ops.append({"inst": "S", "src": f"bind_native('identity', "
+                    f"'{name}')", "tag": "bind-alias"})
+        ops.append({"inst": "S", "src": f"bind_native('{name}')",
+                    "tag": "bind"})
+        return ops + invoke_ops(name)
     if mode == "none":
         ops.append({"inst": "S", "src": f"bind_native('{name}')",
                     "tag": "bind"})
@@ -314,6 +325,7 @@ def sweep_cases():
         for ch in chunks(flag_attacks(), 8):
             cases.append(("flag", legacy, "top", ch))
             cases.append(("flag", legacy, "module", ch))
+            cases.append(("flag", legacy, "env", ch))
         cases.append(("crawl", legacy, None, None))
         cases.append(("detached", legacy, None, None))
     return cases
@@ -359,6 +371,18 @@ def build_sweep(spec):
         for atk in b:
             if a == "top":
                 ops.append({"inst": "S", "src": atk, "tag": "flag-attack"})
+            elif a == "env":
+                # at the top level of a fresh caller-supplied environment,
+                # followed by the natives from inside that environment
+                n += 1
+                ename = f"FE{n}"
+                ops.append({"inst": "S", "src": atk, "tag": "flag-attack",
+                            "env": ename})
+                for o in os_native_ops(("", "fe_"))[:40]:
+                    ops.append(dict(o, env=ename))
+                ops.append({"inst": "S", "src": "require OS; require IO; "
+                            "OS->file_exists(" + P1 + ")", "tag": "req",
+                            "env": ename})
             else:
                 n += 1
                 files[f"{MOD_HOME}/atk{n}.ckl"] = {"text": atk + ";\n" + (
@@ -486,6 +510,9 @@ def gen_session(rng, tier):
             atk = rng.choice(attacks)
             new = [{"inst": "S", "src": atk, "tag": "flag-attack"}]
             new += rng.sample(os_native_ops(("", "fe_")), 4)
+            if rng.random() < 0.35:
+                en = "FE" + str(rng.randrange(4))
+                new = [dict(o, env=en) for o in new]
             new += flag_probe_ops(nprobe % 12)
             nprobe += 1
         elif r < 0.84:
